@@ -13,7 +13,7 @@ import Model.Random
 set_option linter.unusedSectionVars false
 
 namespace C18
-open Random Scalar
+open Rng Scalar
 
 /-! ### the exact conversion and the ratio -/
 
